@@ -84,6 +84,14 @@ Section Static.
         flag (match op, nth_error tys i with AMod, Some (TF _) => true | _, _ => false end) TgFloatMod
     | SIf c th el => sflags_cond c ++ sflags_block th ++ sflags_els el
     | SReturn e => sflags_expr None e
+    | SFor c b => sflags_cond c ++ sflags_block b
+    | SLoop b => sflags_block b
+    | SRange _ _ t start stop step b =>
+        match start with Some e => sflags_expr (Some (TI t)) e | None => [] end ++
+        sflags_expr (Some (TI t)) stop ++
+        match step with Some (_, e) => sflags_expr (Some (TI t)) e | None => [] end ++
+        sflags_block b
+    | SBreak | SContinue => []
     end
   with sflags_block (b : block) : list tag :=
     match b with BNil => [] | BCons s r => sflags_stmt s ++ sflags_block r end
@@ -201,6 +209,67 @@ Section Dyn.
         | Ok (VI z) => if truthy z then dflags_block r th else dflags_els r el
         | _ => []
         end
+    (* loops: the flags of every iteration that Spec.exec_stmt runs *)
+    | SFor c b =>
+        (fix iter (n : nat) (r : env fo) : list tag :=
+           match n with
+           | O => []
+           | S n' =>
+               dflags r c ++
+               match eval r c with
+               | Ok (VI z) =>
+                   if truthy z then
+                     dflags_block r b ++
+                     match exec_block fo tys r b with
+                     | Ok (Next r') | Ok (Cont r') => iter n' r'
+                     | _ => []
+                     end
+                   else []
+               | _ => []
+               end
+           end) loop_fuel r
+    | SLoop b =>
+        (fix iter (n : nat) (r : env fo) : list tag :=
+           match n with
+           | O => []
+           | S n' =>
+               dflags_block r b ++
+               match exec_block fo tys r b with
+               | Ok (Next r') | Ok (Cont r') => iter n' r'
+               | _ => []
+               end
+           end) loop_fuel r
+    | SRange i lim t start stop step b =>
+        match start with Some e => dflags r e | None => [] end ++
+        dflags r stop ++
+        match step with Some (_, e) => dflags r e | None => [] end ++
+        match (match start with Some e => eval r e | None => Ok (VI 0) end), eval r stop,
+              (match step with Some (_, e) => eval r e | None => Ok (VI 1) end) with
+        | Ok (VI z0), Ok (VI zl), Ok (VI zs) =>
+            if zs =? 0 then [] else
+            (fix iter (n : nat) (r : env fo) : list tag :=
+               match n with
+               | O => []
+               | S n' =>
+                   match r i with
+                   | VI z =>
+                       if (if 0 <? zs then zl <=? z else z <=? zl) then []
+                       else
+                         dflags_block r b ++
+                         match exec_block fo tys r b with
+                         | Ok (Next r') | Ok (Cont r') =>
+                             match r' i with
+                             | VI z' => iter n' (upd fo r' i (VI (wrap t (z' + zs))))
+                             | _ => []
+                             end
+                         | _ => []
+                         end
+                   | _ => []
+                   end
+               end) loop_fuel (upd fo r i (VI z0))
+        | _, _, _ => []
+        end
+    | SBreak | SContinue => []
     end
   with dflags_block (r : env fo) (b : block) : list tag :=
     match b with
